@@ -19,6 +19,7 @@ import (
 func init() {
 	register(
 		&Rule{ID: "PG-LADDER", Doc: "the grammar's expression ladder (operators per level, associativity) equals GRAMMAR.md and the specified precedence", Run: rulePGLadder, Min: 8},
+		&Rule{ID: "PG-LEXER", Doc: "the lexer rules and parser options are the specified ones (token classes, their order, quoting, lookahead)", Run: rulePGLexer, Min: 20},
 		&Rule{ID: "PG-EMIT", Doc: "operands are emitted before their operator (postfix), left before right (left-assoc)", Run: rulePGEmit, Min: 12},
 		&Rule{ID: "PG-OPMAP", Doc: "every operator token of the grammar maps to a defined, non-nil expression op: literal -> operatorMap -> Operator.ToExpr -> biscuit op", Run: rulePGOpMap, Min: 19},
 		&Rule{ID: "PG-ERR", Doc: "no error returned inside package parser is discarded", Run: rulePGErr, Min: 10},
@@ -792,4 +793,116 @@ func rulePRParens(p *Prog, r *Reporter) {
 		r.Check(ok, p.Pos(ev.Pos()), p.FuncName(ev), "Parens.Eval", "identity", "Parens.Eval is not the identity")
 	}
 	_ = reflect.TypeOf
+}
+
+// frozen concrete lexical syntax of the documented Datalog grammar (name, pattern, in priority order)
+var frozenLexer = [][2]string{
+	{"Keyword", `check if|allow if|deny if`},
+	{"Function", `prefix|suffix|matches|length|contains`},
+	{"Hex", `hex:([0-9a-fA-F]{2})*`},
+	{"Dot", `\.`},
+	{"Arrow", `<-`},
+	{"Or", `\|\|`},
+	{"And", `&&`},
+	{"Operator", `==|>=|<=|>|<|\+|-|\*`},
+	{"Comment", `//[^\n]*`},
+	{"String", `\"[^\"]*\"`},
+	{"Variable", `\$[a-zA-Z0-9_:]+`},
+	{"Parameter", `\{[a-zA-Z0-9_:]+\}`},
+	{"DateTime", `\d\d\d\d-\d\d-\d\dT\d\d:\d\d:\d\d(\.\d+)?(Z|([-+]\d\d:\d\d))?`},
+	{"Int", `[0-9]+`},
+	{"Bool", `true|false`},
+	{"Ident", `[a-z][a-zA-Z0-9_:]*`},
+	{"Whitespace", `[ \t]+`},
+	{"EOL", `[\n\r]+`},
+	{"Punct", "[-[!@%^&#$*()+_={}\\|:;\"'<,>.?/]|]"},
+}
+
+func rulePGLexer(p *Prog, r *Reporter) {
+	globalP = p
+	pk := p.Pkgs["parser"]
+	var rules [][2]string
+	var options []string
+	for _, f := range pk.Syntax {
+		ast.Inspect(f, func(n ast.Node) bool {
+			vs, ok := n.(*ast.ValueSpec)
+			if !ok {
+				return true
+			}
+			for i, nm := range vs.Names {
+				if i >= len(vs.Values) {
+					continue
+				}
+				cl, ok := vs.Values[i].(*ast.CompositeLit)
+				if !ok {
+					continue
+				}
+				switch nm.Name {
+				case "BiscuitLexerRules":
+					for _, e := range cl.Elts {
+						rc, ok := e.(*ast.CompositeLit)
+						if !ok {
+							continue
+						}
+						var name, pat string
+						for _, kv := range rc.Elts {
+							if k, ok := kv.(*ast.KeyValueExpr); ok {
+								if id, ok := k.Key.(*ast.Ident); ok {
+									if bl, ok := k.Value.(*ast.BasicLit); ok {
+										v, _ := strconv.Unquote(bl.Value)
+										switch id.Name {
+										case "Name":
+											name = v
+										case "Pattern":
+											pat = v
+										}
+									}
+								}
+							}
+						}
+						rules = append(rules, [2]string{name, pat})
+					}
+				case "DefaultParserOptions":
+					for _, e := range cl.Elts {
+						if call, ok := e.(*ast.CallExpr); ok {
+							s := types.ExprString(call.Fun)
+							var args []string
+							for _, a := range call.Args {
+								if bl, ok := a.(*ast.BasicLit); ok {
+									args = append(args, bl.Value)
+								} else {
+									args = append(args, types.ExprString(a))
+								}
+							}
+							options = append(options, s+"("+strings.Join(args, ",")+")")
+						}
+					}
+				}
+			}
+			return true
+		})
+	}
+	if len(rules) != len(frozenLexer) {
+		r.Bad("parser/parser.go", "parser.BiscuitLexerRules", "lexer rule count", fmt.Sprintf("%d lexer rules, the documented lexical syntax has %d", len(rules), len(frozenLexer)))
+	}
+	for i := 0; i < len(frozenLexer) && i < len(rules); i++ {
+		r.Check(rules[i] == frozenLexer[i], "parser/parser.go", "parser.BiscuitLexerRules", "lexer rule "+frozenLexer[i][0], "name, pattern and priority as specified", fmt.Sprintf("lexer rule %d is %s = %q; the specified lexical syntax has %s = %q at this priority: some documented texts lex differently", i, rules[i][0], rules[i][1], frozenLexer[i][0], frozenLexer[i][1]))
+	}
+	wantOpts := []string{`participle.Lexer(lexer.MustSimple(BiscuitLexerRules))`, `participle.UseLookahead(1)`, `participle.Elide("Whitespace","EOL")`, `participle.Unquote("String")`}
+	sort.Strings(options)
+	sort.Strings(wantOpts)
+	r.Check(strings.Join(options, ";") == strings.Join(wantOpts, ";"), "parser/parser.go", "parser.DefaultParserOptions", "parser options", "lexer, lookahead 1, elided whitespace/EOL, unquoted strings", fmt.Sprintf("parser options are %v, specified %v", options, wantOpts))
+	// every parser of New() is built with these options
+	if nw := p.Func("parser", "", "New"); nw != nil {
+		n, ok := 0, true
+		for _, c := range callsIn(nw) {
+			if f := c.Common().StaticCallee(); f != nil && strings.Contains(f.Name(), "MustBuild") {
+				n++
+				if len(c.Common().Args) == 0 || !strings.Contains(p.D(c.Common().Args[len(c.Common().Args)-1]), "DefaultParserOptions") {
+					ok = false
+				}
+			}
+		}
+		r.Check(ok && n >= 6, p.Pos(nw.Pos()), p.FuncName(nw), "parsers built with the options", fmt.Sprintf("%d grammar entry points built with DefaultParserOptions", n), "a grammar entry point is built without DefaultParserOptions")
+	}
 }
